@@ -48,14 +48,14 @@ def dict_attrs_of_init(m, cname):
     return out
 
 
-_USES_CACHE = {}
 
 
 def _class_events(m, cname):
     """[(FuncInfo, Run, Event, expanded target/receiver ast, value names)]
     for every store / mutating call in the methods of cname"""
-    if (id(m), cname) in _USES_CACHE:
-        return _USES_CACHE[(id(m), cname)]
+    cache = m.__dict__.setdefault('_c11_uses_cache', {})
+    if cname in cache:
+        return cache[cname]
     out = []
     c = m.cls(cname)
     for f in c.methods.values():
@@ -82,7 +82,7 @@ def _class_events(m, cname):
                     continue
                 seen.add(key)
                 out.append((f, e, tgt))
-    _USES_CACHE[(id(m), cname)] = out
+    cache[cname] = out
     return out
 
 
